@@ -11,9 +11,11 @@ ASSUMPTIONS = [
     "the interleaving corollary (each flow's transcript equals its solo transcript for disjoint scripts) is checked by "
     "the oracle and by correspondence, not proved: it needs a footprint theorem for the whole interpreter (partial)",
     "tie: engine.compare / engine_save.compare on the interleaved scripts",
-    "oracle on the implementation: generated programs made of mutually disjoint parts, one flow per part; all "
+    "oracle on the implementation: generated programs made of mutually disjoint parts (globals, temporaries that live "
+    "across pauses in knot/tunnel/function frames), one flow per part, one part possibly in the default flow; all "
     "interleavings of two flows' operations (exhaustive up to 4 ops each, sampled beyond and for three flows); "
-    "optional SAVE+LOADNEW and REMOVE_FLOW at interleaving points",
+    "0-3 detours at interleaving points: SAVE+LOADNEW, a third flow removed while parked or WHILE CURRENT (with or "
+    "without having run), a detour through another flow, a finished named flow removed while current",
 ]
 
 WORDS = ["amber", "brook", "cedar", "delta", "ember", "fjord", "grove", "haven"]
